@@ -244,6 +244,10 @@ func runRows(w *world.World, rows []row, enc *json.Encoder) error {
 			_, _, _ = pipeline.Store(p.Ctx, p.Client, kobj.Secret("a", "crt", map[string][]byte{"tls.crt": []byte("garbage"), "tls.key": []byte("k")}))
 		case "cert":
 			_, _, _ = pipeline.Store(p.Ctx, p.Client, kobj.Secret("a", "crt", map[string][]byte{"tls.crt": makeCert(names[r.Sans], time.Now().Add(window+off)), "tls.key": []byte("k")}))
+		case "chain":
+			// the certificate followed by its issuer: other names, other dates
+			crt := append(makeCert(names[r.Sans], time.Now().Add(window+off)), makeCert([]string{"issuer.example"}, time.Now().Add(-window))...)
+			_, _, _ = pipeline.Store(p.Ctx, p.Client, kobj.Secret("a", "crt", map[string][]byte{"tls.crt": crt, "tls.key": []byte("k")}))
 		}
 		before := getSecret(p, "a", "crt")
 		stub.outcome, stub.calls = r.Sign, nil
